@@ -264,6 +264,7 @@ func run(c Case) (string, *mc.Viol) {
 		}
 	}
 	bi := batched.NewBasicBatchedIssuer(issuers...)
+	var prevResp, prevCopy []byte
 	if len(c.Prev) > 0 {
 		// the issuer object has served another batch before: nothing of it may show in this one
 		var pl []tokens.TokenRequestWithDetails
@@ -273,7 +274,8 @@ func run(c Case) (string, *mc.Viol) {
 		if pb, err := batched.NewBasicClient().CreateTokenRequest(pl); err == nil {
 			pd := new(batched.BatchedTokenRequest)
 			if pd.Unmarshal(append([]byte{}, pb.Marshal()...)) {
-				_, _ = bi.EvaluateBatch(pd)
+				prevResp, _ = bi.EvaluateBatch(pd)
+				prevCopy = append([]byte{}, prevResp...)
 			}
 		}
 	}
@@ -299,6 +301,13 @@ func run(c Case) (string, *mc.Viol) {
 	resp, err := bi.EvaluateBatch(dec)
 	if err != nil {
 		return v("EvaluateBatch fails as a whole", err.Error())
+	}
+	if !bytes.Equal(prevResp, prevCopy) {
+		return v("the response of an earlier batch changed when the next batch was evaluated", fmt.Sprintf("previous batch %s", names(c.Prev)))
+	}
+	// the caller is done with the earlier response and reuses its memory
+	for i := range prevResp {
+		prevResp[i] = 0xEE
 	}
 	entries, err := batched.UnmarshalBatchedTokenResponses(append([]byte{}, resp...))
 	if err != nil {
